@@ -91,6 +91,65 @@ def sampler_case(item):
     return res
 
 
+def history_case(item):
+    """Several updates by ONE sampler object, chained as the run loop chains them (the value returned by one call is the
+    current value of the next; K and n change as the tree changes): the law parameters of every draw of every call must be
+    those of Escobar-West for the CURRENT value - nothing may survive from an earlier call."""
+    a, b, alpha0, seq, policy = item
+    from phyclone.mcmc.concentration import GammaPriorConcentrationSampler
+
+    res = {"item": item, "n": 0, "problems": []}
+
+    def run(rng):
+        s = GammaPriorConcentrationSampler(a, b, rng=rng)
+        alpha = alpha0
+        probs = []
+        for k, (K, n) in enumerate(seq):
+            mark = len(rng.draws)
+            v = float(s.sample(alpha, K, n))
+            cont = [d for d in rng.draws[mark:] if d[0] in ("beta", "standard_gamma", "gamma")]
+            if K == 0:
+                if len(cont) != 1 or cont[0][0] == "beta" or abs(cont[0][1][0] - a) > 1e-12:
+                    probs.append("call %d (no clones): draws %r, expected one Gamma(a=%r) draw from the prior" % (k, cont, a))
+            else:
+                if not cont or cont[0][0] != "beta":
+                    probs.append("call %d: first continuous draw %r, expected the auxiliary Beta variable" % (k, cont[:1]))
+                else:
+                    ba, bb = cont[0][1]
+                    if abs(ba - (alpha + 1)) > 1e-12 * (1 + alpha) or abs(bb - n) > 1e-12:
+                        probs.append("call %d of one sampler object: auxiliary variable drawn from Beta(%r, %r), the current value %r and n=%d require Beta(%r, %r)" % (k, ba, bb, alpha, n, alpha + 1, n))
+                    gam = [d for d in cont[1:] if d[0] in ("standard_gamma", "gamma")]
+                    if len(gam) != 1 or not (abs(gam[0][1][0] - (a + K - 1)) < 1e-12 or abs(gam[0][1][0] - (a + K)) < 1e-12):
+                        probs.append("call %d: gamma draws %r, expected one with shape %r or %r" % (k, gam, a + K - 1, a + K))
+            if not (v > 0 and math.isfinite(v)):
+                probs.append("call %d returned %r" % (k, v))
+                break
+            alpha = v
+        return probs
+
+    try:
+        for p, probs, choices, _ in explore(run, policy=policy, max_deviations=1):
+            res["n"] += 1
+            if probs and len(res["problems"]) < 2:
+                res["problems"].append("%s (random choices %r)" % (probs[0], choices))
+    except Exception as e:
+        res["problems"].append("raised %s: %s" % (type(e).__name__, e))
+    return res
+
+
+def history_items(tier):
+    steps = [(1, 3), (2, 3), (2, 5), (3, 5), (0, 2), (5, 5)]
+    out = []
+    for a, b in ((0.01, 0.01), (1.0, 3.0)):
+        for L in ((2, 3) if tier == "quick" else (2, 3, 4)):
+            for si, seq in enumerate(itertools.product(steps, repeat=L)):
+                if L >= 3 and tier == "quick" and (si % 4):
+                    continue
+                for pol in (("first", "unlikely") if tier == "quick" else ("first", "last", "likely", "unlikely")):
+                    out.append((a, b, 0.7, seq, pol))
+    return out
+
+
 def quadrature_side_check(a, b, K, n):
     """The reference mixture, integrated against Beta(eta | alpha+1, n), leaves
     p(alpha | K, n) ~ alpha^(a+K-1) e^(-b alpha) Gamma(alpha)/Gamma(alpha+n) invariant (side-check of the oracle)."""
@@ -193,7 +252,8 @@ def main(tier, seed):
     chk = Check("C13", tier, seed)
     chk.rule = ("(a) a,b in {0.01,1,3} x alpha in {1e-3,0.5,1,7} x all 1<=K<=n<=6: ALL executions of GammaPriorConcentrationSampler.sample under the enumerating "
                 "generator (eta and the gamma draw over a 7-point quantile alphabet, both Bernoulli outcomes); the recorded law parameters must be Beta(alpha+1,n), "
-                "Bernoulli(pi_eta), Gamma(a+K-1+z)/(b-log eta); (b) every tree over n<=4 data points incl. outliers x two (old,new) alpha pairs: K, n extraction, "
+                "Bernoulli(pi_eta), Gamma(a+K-1+z)/(b-log eta); (a') every sequence of 2-3 (4) chained updates by ONE sampler object over 6 (K,n) steps incl. K=0 (deviation bound 1 under 2 (4) policies): "
+                "each call's draws have the law parameters of the current value; (b) every tree over n<=4 data points incl. outliers x two (old,new) alpha pairs: K, n extraction, "
                 "stored value, densities and proposals at the new value; non-trivial = every case")
     chk.assumptions = ["continuous draws are represented by 7 quantiles each: the law parameters are checked exactly, the value of the draw only at those quantiles",
                        "that the Escobar-West mixture leaves p(alpha|K,n) invariant is mathematics about the reference model, side-checked by quadrature"]
@@ -213,6 +273,15 @@ def main(tier, seed):
         chk.nontrivial.add(("sampler",) + tuple(r["item"]))
         for pr in r["problems"][:2]:
             chk.violation({"sub": "sampler", "what": pr.split(",")[0][:40]}, {"a,b,alpha,K,n": list(r["item"]), "problem": pr}, {"kind": "sampler", "item": list(r["item"])})
+    for r in pool_imap(history_case, history_items(tier), chunksize=8):
+        chk.transitions += r["n"]
+        chk.traces_validated += r["n"]
+        chk.states.add(("history",) + tuple(r["item"][:4]))
+        chk.nontrivial.add(("history",) + tuple(r["item"]))
+        for pr in r["problems"][:2]:
+            chk.violation({"sub": "sampler-history", "what": pr.split(":")[0][:40]}, {"a,b,alpha0,(K,n) sequence,policy": [list(x) if isinstance(x, tuple) else x for x in r["item"]], "problem": pr},
+                          {"kind": "history", "item": [r["item"][0], r["item"][1], r["item"][2], [list(x) for x in r["item"][3]], r["item"][4]]})
+    chk.caps.append("history part (a'): random outcomes of a chained sequence explored to deviation bound 1 under the listed default policies; parts (a) and (b) are exhaustive")
     w = max(quadrature_side_check(a, b, K, n) for (a, b, K, n) in ((1.0, 1.0, 2, 5), (0.01, 0.01, 3, 4), (3.0, 1.0, 1, 6)))
     chk.note("reference_model_quadrature_worst_relative_error", w)
     if w > 1e-5:
@@ -239,6 +308,9 @@ def replay(path):
         r = sampler_case(tuple(rp["item"]))
     elif rp["kind"] == "tree":
         r = tree_case(tuple(rp["item"]))
+    elif rp["kind"] == "history":
+        it = rp["item"]
+        r = history_case((it[0], it[1], it[2], tuple(tuple(x) for x in it[3]), it[4]))
     else:
         return 1
     print(r["problems"])
